@@ -2,6 +2,7 @@ import Regatta.Driver.Proto
 import Regatta.Driver.KeyMode
 import Regatta.Driver.ViewMode
 import Regatta.Driver.FsmMode
+import Regatta.Driver.LogMode
 /-
   Model driver: one operation per input line, one answer per output line.
   usage: driver <mode> < ops.txt > model.txt
@@ -23,6 +24,7 @@ def main (args : List String) : IO UInt32 := do
   | ["key"] => loop stdin stdout (fun (_ : Unit) t => ((), Driver.KeyMode.step t)) ()
   | ["view"] => loop stdin stdout Driver.ViewMode.step ({} : Driver.ViewMode.St)
   | ["fsm"] => loop stdin stdout Driver.FsmMode.step ({} : Driver.FsmMode.St)
+  | ["log"] => loop stdin stdout Driver.LogMode.step ({} : Driver.LogMode.St)
   | _ => IO.eprintln "usage: driver <mode>"; return 2
   stdout.flush
   return 0
